@@ -2,6 +2,7 @@ import json, os, sys, time
 import vlib, mcdrive
 
 ASSUME = [
+    'goroutine timing: an entry is applied with GOMAXPROCS(1) and the number of goroutines is compared before and after: an entry that starts a goroutine (work that continues after Apply returned) is reported; everything else in the state machine runs on the applying goroutine',
     'receiving node: every transition is also executed the way the node executes it whose HTTP handler received the POSTs (ThrottleUntil called ten times per client line with the wall clock 1 ms behind the previous message of the session: the one IRCServer mutator the handlers call outside the log); outputs and state must equal the node that only applied the log, the throttle counter itself is masked',
     'every transition is first executed twice without any deviation on fresh instances in the same process: a different result is reported as a violation (process-global state left behind by an earlier execution influences the result); such findings are re-executed in five fresh processes',
     'map iteration order is owned through the overlaid runtime (tools/rtpatch.py): every range over a map with >=2 elements on the harness goroutine is a choice point; for maps of <=8 elements the alternatives are all rotations the runtime can produce (8<<B start positions, capped at 16 for larger maps)',
